@@ -88,6 +88,17 @@ func c15ValueClass(v *canon.Node) string {
 
 func c15Value(r *rand.Rand) *canon.Node {
 	s := func(x string) *canon.Node { return canon.St(x) }
+	if r.Intn(4000) == 0 {
+		// a big value: its preamble line is far longer than 64 KiB
+		if r.Intn(2) == 0 {
+			return s(strings.Repeat("long text ", 9000+r.Intn(5000)))
+		}
+		l := make([]*canon.Node, 15000+r.Intn(10000))
+		for i := range l {
+			l[i] = canon.In(i)
+		}
+		return canon.Ve(l...)
+	}
 	switch r.Intn(14) {
 	case 0:
 		return s(gen.Pick(r, []string{"{\"a\":\n 1}", "[{\"a\":\n 1}]", "[{\"a\": 1},\n {\"b\": 2}]", "[\n1,\n2\n]", "{\"a\": [\n{\"b\": 1}\n]}", "[{\"single\": \"line\"}]"})) // multi-line JSON
